@@ -393,7 +393,7 @@ def c01(ctx):
            "traces_validated_against_impl": v1["accepted"] + v2["accepted"],
            "samples": (s1[:1] + s2[:1] + s3[:1] + (r1.get("samples") or [])[:2]),
            "model_transitions": ne + nef, "edges_executed_on_real_code": tot.get("edges_executed", 0),
-           "trace_events_validated": v1["events"] + v2["events"], "callers_in_family": 38,
+           "trace_events_validated": v1["events"] + v2["events"], "callers_in_family": 39,
            "exhaustive": bool(th),
            "explanation": "TLC enumerated every (caller of the rule-set family: all-access, empty, each single action x pattern rule, split rules, "
                           "multi-rule) x (operation, arguments) x (existing / absent / reserved / empty name) transition in every reachable state; "
@@ -413,7 +413,10 @@ def c09(ctx):
     t1, s1 = vault_walk(ctx, wd, "c09-db", shards=16 if th else 4, env={"VERIF_OPS": "getcond", "VERIF_FILECLIENT": 1, "VERIF_PROBE_EVERY": 64})
     t2, s2 = vault_walk(ctx, wd, "c09-http", shards=16 if th else 4, env={"VERIF_OPS": "getcond,get", "VERIF_MODE": "http", "VERIF_PROBE_EVERY": 64})
     tot = merge_tot(t1, t2)
-    cov = {"states": ns, "transitions": tot.get("targets_covered", 0), "traces_validated_against_impl": 0,
+    # conditional gets racing activations / puts / deletions: the check-and-read must be one atomic step (VaultConc: LogApply)
+    rc, sc = conc_histories(ctx, "db", 1500 if th else 200, race=True, parts=16 if th else 8, opmix="cond")
+    cov = {"states": ns, "transitions": tot.get("targets_covered", 0), "traces_validated_against_impl": sc["accepted"],
+           "concurrent_histories": sc["histories"],
            "samples": s1[:2] + s2[:2], "model_transitions": ne, "edges_executed_on_real_code": tot.get("edges_executed", 0),
            "fileclient_checks": tot.get("fileclient_checks", 0), "exhaustive": True,
            "explanation": "every conditional-get edge of the bounded Vault graph (every V in 0..MaxVer+1: current, older, newer, deleted, "
@@ -546,11 +549,13 @@ def validate_conc(ctx, wd, parts, what):
     return stats
 
 
-def conc_histories(ctx, mode, n, race=True, auditfile=False, parts=8):
+def conc_histories(ctx, mode, n, race=True, auditfile=False, parts=8, opmix=None):
     env = {"VERIF_TRACES": n, "VERIF_MODE": mode}
     if auditfile:
         env["VERIF_AUDITFILE"] = 1
-    name = "conc-%s%s" % (mode, "-file" if auditfile else "")
+    if opmix:
+        env["VERIF_OPMIX"] = opmix
+    name = "conc-%s%s%s" % (mode, "-file" if auditfile else "", "-" + opmix if opmix else "")
     results, wd, code = ctx.godrive("vault", "^TestConcurrentHistories$", env=env, race=race, name=name, allow_fail=True, timeout=1700)
     out = open(os.path.join(wd, "driver.out"), errors="replace").read()
     blocks = [b for b in out.split("==================") if "WARNING: DATA RACE" in b]
@@ -855,7 +860,19 @@ def describe_store_event(ev):
 
 def store_random(ctx, profile, n, parts=8, race=False):
     results, wd, code = ctx.godrive("store", "^TestStoreRandom$", env={"VERIF_PROFILE": profile, "VERIF_TRACES": n}, name="store-" + profile,
-                                    race=race, timeout=1700)
+                                    race=race, timeout=1700, allow_fail=race)
+    if race:
+        blocks, real = race_blocks(os.path.join(wd, "driver.out"))
+        if blocks and not real:
+            raise ToolTrouble("race inside the harness itself (no verdict):\n" + blocks[0][:2500])
+        if real:
+            i = real[0].index("WARNING: DATA RACE")
+            ctx.violation("data race (store/%s)" % profile, "the race detector reports a data race in the client store:\n" + real[0][i:i + 1800],
+                          {"kind": "race", "report": real[0][i:i + 6000]})
+        if "store-random" not in results:
+            if real:
+                return {"counters": {}, "samples": []}, {"accepted": 0, "events": 0, "histories": 0, "states": 0, "rejected": 0}
+            raise ToolTrouble("store driver died:\n" + open(os.path.join(wd, "driver.out"), errors="replace").read()[-3000:])
     r = ctx.take(results, "store-random")
     st = validate_branching(ctx, "StoreTrace", "StoreTrace.cfg", os.path.join(wd, "trace.ndjson"), parts, "store/" + profile,
                             {"dict.ndjson": os.path.join(wd, "dict.ndjson")}, describe=describe_store_event)
@@ -867,6 +884,7 @@ STORE_MC = {
     "init":   ("StoreMC.init.cfg", {"Horizon": 9000, "NewDeadlines": "{0, 3}", "CacheKinds": '{"none", "garbage", "partial", "complete", "stale"}'}, {}),
     "poll":   ("StoreMC.poll.cfg", {"CallerSet": '{"k1"}', "Acts": '{"newstore", "fail", "refresh", "svc", "handle", "read"}'}, {}),
     "lookup": ("StoreMC.lookup.cfg", {"CallerSet": '{"k1", "k2"}'}, {"Steps": "{300000}", "Horizon": 600000}),
+    "reads":  ("StoreMC.reads.cfg", {"Acts": '{"newstore", "refresh", "svc", "handle", "read", "lookup", "close", "tick"}', "CacheKinds": '{"undeclared"}'}, {}),
     "expiry": ("StoreMC.expiry.cfg", {"Expiries": "{30000}", "CacheKinds": '{"undeclared"}', "Horizon": 31000}, {}),
 }
 
@@ -878,13 +896,13 @@ def store_mc(ctx, fam, invariants_note):
     return run
 
 
-def store_check(ctx, fams, profiles, n_quick, n_thorough, explanation, extra=None):
+def store_check(ctx, fams, profiles, n_quick, n_thorough, explanation, extra=None, race_profiles=()):
     th = ctx.thorough
     runs = [store_mc(ctx, f, explanation[:80]) for f in fams]
     tot = {"accepted": 0, "events": 0, "histories": 0, "states": 0}
     samples = []
     for p in profiles:
-        r, st = store_random(ctx, p, n_thorough if th else n_quick, parts=16 if th else 8)
+        r, st = store_random(ctx, p, n_thorough if th else n_quick, parts=16 if th else 8, race=p in race_profiles)
         for k in tot:
             tot[k] += st[k]
         samples += (r.get("samples") or [])[:1]
@@ -1031,3 +1049,35 @@ def c15(ctx):
     return "model_checking", cov, ["an install is a successful poll that found a new version; versions stand for bytes (64-byte recognisable values, "
                                    "the builder checks it was given a whole value of the right secret)",
                                    "race reports are attributed to the code under test only when a setec frame is on the stack"]
+
+
+# ----------------------------------------------------------------------------- C12
+@check("C12")
+def c12(ctx):
+    th = ctx.thorough
+    cov = store_check(ctx, ["reads"], ["reads", "creads"], 150, 2000,
+                      "Store.tla makes calling a handle an action that is enabled in every state in which the handle exists (during construction of "
+                      "a successor store, polls, lookups, the expiry sweep, after Close) and returns the version most recently installed for that "
+                      "name. TLC checks HandleNeverDangles, InstalledServed, InstLast and ReadServed over handles x reads x polls (ticks and refreshes) "
+                      "x lookups x expiry x Close x service changes. Recorded histories of the real store are validated line by line: sequential "
+                      "ones (a read is attempted at every point, also while a request is held by the scripted service: it must complete without "
+                      "the clock or any request moving), and concurrent ones in which three reader goroutines call handles in bursts racing the "
+                      "driver's step (under the race detector), where TLC places each call between its begin and end line",
+                      race_profiles=("creads",))
+    results, wd, code = ctx.godrive("store", "^TestReadStress$", env={"VERIF_TRACES": 40 if th else 6}, name="stress", race=True, allow_fail=True, timeout=1700)
+    blocks, real = race_blocks(os.path.join(wd, "driver.out"))
+    if blocks and not real:
+        raise ToolTrouble("race inside the harness itself (no verdict):\n" + blocks[0][:2500])
+    if real:
+        i = real[0].index("WARNING: DATA RACE")
+        ctx.violation("data race (store stress)", "the race detector reports a data race among handles, polls, lookups and Close:\n" + real[0][i:i + 1800],
+                      {"kind": "race", "report": real[0][i:i + 6000]})
+    elif "store-stress" not in results:
+        raise ToolTrouble("stress driver died:\n" + open(os.path.join(wd, "driver.out"), errors="replace").read()[-3000:])
+    if "store-stress" in results:
+        r = ctx.take(results, "store-stress")
+        cov["stress_reads_under_race_detector"] = r["counters"].get("reads", 0)
+        cov["stress_runs"] = r["counters"].get("runs", 0)
+    return "model_checking", cov, ["'no data race' is Go's memory model: decided by the race detector on the concurrent histories and the stress runs",
+                                   "a handle call that stays blocked for 20 s of real time is reported by a watchdog outside the virtual-time bubble",
+                                   "values are 64-byte patterns unique per (name, version), so a torn or foreign value is recognisable"]
